@@ -31,6 +31,9 @@ def run(tier):
         rng = random.Random(lib.seed())
         sample = rng.sample(cases, min(t["cli"], len(cases)))
         # the multi-strand CLI regex of BPSEQ files is not involved; sequences use ACGU only
+        # ... run plain and with the tool's two filter options in every combination
+        OPTS = ([], ["--remove-isolated"], ["--remove-pseudoknots"], ["--remove-isolated", "--remove-pseudoknots"])
+        sample = [dict(c, opts=OPTS[k % 4]) for k, c in enumerate(sample)]
         rec_cli = lib.pmap(ss.record_elements_cli, sample)
         allc = rec + rec_cli
         res = lib.trace_validate("Trace_Elements", "Trace_Elements.cfg", allc, sc)
@@ -59,8 +62,9 @@ def replay(doc):
     rep = lib.Report(PID, "quick", "model_checking", evidence=False)
     with lib.Scratch("c07r") as sc:
         base = {k: case[k] for k in ("id", "kind", "n", "pairs", "seq")}
-        if base["id"].endswith("-cli"):
-            base["id"] = base["id"][:-4]
+        if "-cli" in base["id"]:
+            base["id"] = base["id"][:base["id"].index("-cli")]
+            base["opts"] = case.get("opts", [])
             rec = ss.record_elements_cli(base)
         else:
             rec = ss.record_elements(base)
